@@ -50,7 +50,9 @@ func shrinkFirstFailure(c *ctx, f func(*ctx) error) {
 	}
 	stillFails := func(src []byte) bool {
 		cc := &ctx{tier: "quick", seed: c.seed, driver: c.driver, res: core.NewResult(c.res.Property, "quick", c.seed), rng: core.NewRand(c.seed), known: c.known, only: src, onlyEnv: env}
-		if p, _ := guard(func() { _ = f(cc) }); p {
+		p, _ := guard(func() { _ = f(cc) })
+		core.CleanupSessions() // single-document mode never runs its sessions
+		if p {
 			return false
 		}
 		for _, g := range cc.res.OracleFailures {
